@@ -3,8 +3,8 @@
 # worktree moved to /repo's current HEAD (so that the fix: commits are present). Leaves the worktree clean.
 wt=/tmp/seed/$1
 head=$(git -C /repo rev-parse HEAD)
-git -C $wt checkout -q --detach $head || exit 3
-if ! git -C $wt apply $wt/SEED/patch$2.diff 2>/tmp/seed/apply_err.txt && ! git -C $wt apply --3way $wt/SEED/patch$2.diff 2>>/tmp/seed/apply_err.txt; then echo "PATCH DOES NOT APPLY: $(cat /tmp/seed/apply_err.txt | tail -2)"; git -C $wt checkout -q -- .; exit 3; fi
+git -C $wt reset -q --hard 2>/dev/null; git -C $wt checkout -q --detach $head || exit 3
+if ! git -C $wt apply $wt/SEED/patch$2.diff 2>/tmp/seed/apply_err.txt && ! git -C $wt apply --3way $wt/SEED/patch$2.diff 2>>/tmp/seed/apply_err.txt; then echo "PATCH DOES NOT APPLY: $(cat /tmp/seed/apply_err.txt | tail -2)"; git -C $wt reset -q --hard; exit 3; fi
 git -C $wt reset -q
 echo "== seeded $1-$2 vs check $3"
 VERIF_REPO=$wt /verif/check $3 --tier ${4:-quick} 2>&1 | grep -v "^KNOWN-FINDING" | tail -4 | cut -c1-260
